@@ -22,7 +22,7 @@ package inject
 //@   modifies this.version
 
 //@ func New
-//@   props C03 C04
+//@   props C03 C04 C05
 //@   ensures result != nil && dyn(result) == type(*injector) && fresh(result)
 //@   ensures result.(*injector).parent == nil && result.(*injector).values != nil
 
@@ -49,7 +49,7 @@ package inject
 //@ define injOK(inj *injector) bool = inj.values != nil && (forall k reflect.Type :: has(inj.values, k) ==> k != nil)
 
 //@ func (*injector).Value
-//@   props C04
+//@   props C04 C05
 //@   requires injOK(inj) && t != nil
 //@   modifies nothing
 //@   ensures valueOK(inj, t, result)
